@@ -267,7 +267,12 @@ func TestCampaign(t *testing.T) {
 	t.Run("random", func(t *testing.T) {
 		rapid.Check(t, func(rt *rapid.T) {
 			c := drawCase(rt)
+			var wild string
+			c.H, wild = hgen.MaybeRename(rt, c.H, 20)
 			v := runCase(c)
+			if wild != "" {
+				v.Class("renamed:" + wild)
+			}
 			col.Check(rt, ev.JSON(c), v)
 		})
 	})
